@@ -46,9 +46,9 @@ def gen_bam(r, contigs):
         rid += 1
         tid = r.randrange(len(contigs))
         ln = contigs[tid][1]
-        cig = r.choice(['30M'] * 5 + ['10M2I18M', '12M3D18M', '4S26M', '26M4S', '15M100N15M'])
-        qlen = sum(int(n) for n, o in __import__('re').findall(r'(\d+)([MIDNS])', cig) if o in 'MIS')
-        rlen = sum(int(n) for n, o in __import__('re').findall(r'(\d+)([MIDNS])', cig) if o in 'MDN')
+        cig = r.choice(['30M'] * 5 + ['10M2I18M', '12M3D18M', '4S26M', '26M4S', '15M100N15M', '6H4S26M', '26M4S6H', '3H2S26M2S3H', '5H30M', '20=1X9='])
+        qlen = sum(int(n) for n, o in __import__('re').findall(r'(\d+)([MIDNSHP=X])', cig) if o in 'MIS=X')
+        rlen = sum(int(n) for n, o in __import__('re').findall(r'(\d+)([MIDNSHP=X])', cig) if o in 'MDN=X')
         pos = r.randrange(0, ln - rlen - 1)
         if r.random() < 0.45:
             tid, pos = r.choice(pool)          # several reads start at the same coordinate but differ in length / CIGAR
@@ -158,7 +158,7 @@ def make_args(r, bam, dd, contigs, recs):
             if rec['cigar'] is None:
                 continue
             import re
-            rl = sum(int(n) for n, o in re.findall(r'(\d+)([MIDNS])', rec['cigar']) if o in 'MDN')
+            rl = sum(int(n) for n, o in re.findall(r'(\d+)([MIDNSHP=X])', rec['cigar']) if o in 'MDN=X')
             ends.setdefault(contigs[rec['tid']][0], set()).update([rec['pos'], rec['pos'] + rl, rec['pos'] + rl - 1])
         rows = []
         for _ in range(r.randint(1, 4)):
@@ -190,7 +190,7 @@ def read_value(rec, contigs, tag):
 
 def ref_len(rec):
     import re
-    return sum(int(n) for n, o in re.findall(r'(\d+)([MIDNS])', rec['cigar']) if o in 'MDN')
+    return sum(int(n) for n, o in re.findall(r'(\d+)([MIDNSHP=X])', rec['cigar']) if o in 'MDN=X')
 
 
 def model(recs, contigs, a, feats, mode):
